@@ -1102,11 +1102,34 @@ func (e *Engine) evalSpecCall(env *specEnv, n *ast.CallExpr) specVal {
 			return specVal{Value{Ne(a.v[0], Zero)}, boolT}
 		}
 		return specVal{Value{And(Eq(a.v[0], e.ruleNodeTag(rule, a.v[1])), Ne(a.v[1], Zero), Le(Zero, App("acc.depth", SInt, a.v[1])))}, boolT}
+	case "child":
+		// child(ctx, rule): the single child node of grammar rule `rule` of the node ctx - the same term the
+		// accessor contract of ctx.<Rule>() uses (nil when the optional child is absent)
+		a := e.evalSpec(env, n.Args[0])
+		tn := grammarCtxName(a.t)
+		if _, ok := e.tree.ctxs[tn]; !ok && strings.HasPrefix(tn, "I") {
+			tn = tn[1:]
+		}
+		cs := e.tree.ctxs[tn]
+		elem := n.Args[1].(*ast.Ident).Name
+		if cs == nil {
+			e.specFail(n, "child: not a grammar context: "+a.t.String())
+		}
+		if c, ok := cs.counts[elem]; !ok || c.many {
+			e.specFail(n, "child: "+tn+" has no single element "+elem)
+		}
+		ctxv := a.v[len(a.v)-1]
+		node := App("acc."+cs.typeName+"."+elem, SInt, ctxv)
+		pres := e.tree.present(cs, elem, ctxv)
+		return specVal{Value{Ite(pres, node, Zero)}, e.ptrTo(grammarPkg, exportName(elem)+"Context")}
 	case "nall":
 		// nall(ctx, elem): the number of children of grammar element `elem` the node ctx has, i.e.
 		// len(ctx.All<Elem>()) - the same term the accessor contract of All<Elem>() uses
 		a := e.evalSpec(env, n.Args[0])
 		tn := grammarCtxName(a.t)
+		if _, ok := e.tree.ctxs[tn]; !ok && strings.HasPrefix(tn, "I") {
+			tn = tn[1:] // interface I<Rule>Context
+		}
 		cs := e.tree.ctxs[tn]
 		elem := n.Args[1].(*ast.Ident).Name
 		if cs == nil {
